@@ -6,6 +6,7 @@ CONSTANTS
   MaxStep = 6
   MaxGen = 1
   Margin = 1
+  Reps = {"str", "bytes", "tuple", "list", "array", "seqview", "sequence"}
   Steps <- StepsSmall
 CONSTRAINT StepBound
 INVARIANT TypeOK
